@@ -52,9 +52,8 @@ func roundingShapes(r *Run, rule string) {
 		}
 	}
 	if f := r.fn("types.chopPrecisionAndRoundUp"); f != nil {
-		for i, ret := range Returns(f) {
-			t := P.TermAt(ret.Results[0], ret).String()
-			gs := P.Guards(ret, 0)
+		for i, alt := range P.RetAlternatives(f, 0) { // early returns or one result variable alike
+			ret, t, gs := alt.Ret, alt.T.String(), alt.G
 			isNeg, _ := HasAtom(gs, neg)
 			key := fmt.Sprintf("RoundUp/return#%d", i)
 			switch {
@@ -75,9 +74,8 @@ func roundingShapes(r *Run, rule string) {
 	if f := r.fn("types.chopPrecisionAndRound"); f != nil {
 		cmp := `\(\*math/big\.Int\)\.Cmp\(` + q(rem) + `, global:types\.fivePrecision\)`
 		cmpSw := `\(\*math/big\.Int\)\.Cmp\(global:types\.fivePrecision, ` + q(rem) + `\)` // atoms spell "above half" as Cmp(half, rem) < 0
-		for i, ret := range Returns(f) {
-			t := P.TermAt(ret.Results[0], ret).String()
-			gs := P.Guards(ret, 0)
+		for i, alt := range P.RetAlternatives(f, 0) {
+			ret, t, gs := alt.Ret, alt.T.String(), alt.G
 			isNeg, _ := HasAtom(gs, neg)
 			key := fmt.Sprintf("Round/return#%d", i)
 			switch {
